@@ -4807,6 +4807,9 @@ def container_script_repr(container,imports,prefix,settings):
         d1,d2='[',']'
     elif isinstance(container,tuple):
         d1,d2='(',')'
+        if len(result)==1:
+            # a one-element tuple needs its trailing comma
+            d2=',)'
     else:
         raise NotImplementedError
     rep=d1+','.join(result)+d2
